@@ -94,7 +94,7 @@ func TestVX_C12b(t *testing.T) {
 		}
 		maps = append(maps, m)
 	}
-	for _, n := range []string{"identity", "readme", "quant5", "three", "plateau"} {
+	for _, n := range []string{"identity", "readme", "quant5", "three", "plateau", "compress"} {
 		maps = append(maps, vxMap(n))
 	}
 	var nontrivial int64
@@ -111,11 +111,28 @@ func TestVX_C12b(t *testing.T) {
 				if mi < total-1 && !mc.Thorough() && req > 20 && req < 110 && req%7 != 0 {
 					continue // quick: thin out the flat middle of the request range for the small universe
 				}
-				c := vxC12bCase{kind, m, req, 33}
-				msg, written, wrote := vxC12bRun(c)
-				rep.Evaluations++
+				// device start values: an unrelated value, and (thinned) every key and every output of the map,
+				// because the "already there, skip the write" shortcut depends on what the fan currently shows
+				starts := []int{33}
+				if (req+50)%25 == 0 || mi >= total-1 {
+					for k, v := range m {
+						starts = append(starts, k, v)
+					}
+				}
+				var msg string
+				var written int
+				var wrote bool
+				var c vxC12bCase
+				for _, st := range starts {
+					c = vxC12bCase{kind, m, req, st}
+					msg, written, wrote = vxC12bRun(c)
+					rep.Evaluations++
+					if msg != "" {
+						break
+					}
+				}
 				if msg != "" {
-					rep.Violate(mc.Violation{Signature: "C12 nearest-supported controller", Detail: msg + fmt.Sprintf("\nmap %v kind %s", m, kind), Replay: c})
+					rep.Violate(mc.Violation{Signature: "C12 nearest-supported controller", Detail: msg + fmt.Sprintf("\nmap %v kind %s device started at %d", m, kind, c.DevPwm), Replay: c})
 					break
 				}
 				if _, exact := m[req]; !exact && len(m) > 1 {
@@ -128,7 +145,7 @@ func TestVX_C12b(t *testing.T) {
 		}
 	}
 	rep.AddDistinct(nontrivial)
-	rep.Note(fmt.Sprintf("controller composition: all %d maps over universe %v x outputs %v plus 5 full-size maps, requests -50..305 (quick thins 21..109 to multiples of 7 for the small universe), hwmon and file fans", total-1, uni, alphabet))
+	rep.Note(fmt.Sprintf("controller composition: all %d maps over universe %v x outputs %v plus 6 full-size / user maps, requests -50..305 (quick thins 21..109 to multiples of 7 for the small universe), hwmon and file fans", total-1, uni, alphabet))
 }
 
 // ---------------------------------------------------------------- C07b
@@ -160,6 +177,28 @@ func vxC07bRun(cfg vxCfg) (string, []int, []int) {
 			return fmt.Sprintf("direct algorithm not memoryless: curve %d gives request %d/%d written %d/%d (fresh/after sweep)", v, o.Req, reqs[v], o.DevPwm, devs[v]), reqs, devs
 		}
 	}
+	// ... and every rise v1 <= v2 after a history (v0, v1): a temperature rise alone must never lower the fan,
+	// whatever the fan was doing before (hot -> cool -> warm sequences exercise the skip-write shortcut)
+	stepV := 5
+	if mc.Thorough() {
+		stepV = 2
+	}
+	for _, v0 := range []int{0, 128, 255} {
+		for v1 := 0; v1 <= 255; v1 += stepV {
+			fz := vxNewFixRole(cfg, "search")
+			fz.vxCycle(vxSym{Curve: v0, Rpm: 1000})
+			o1 := fz.vxCycle(vxSym{Curve: v1, Rpm: 1000})
+			base := mc.Clone(fz.ctl, fz.pmap, fz.ctl.pwmValuesWithDistinctTarget)
+			files := fz.vxSaveFiles()
+			for v2 := v1; v2 <= 255; v2 += stepV {
+				fz.vxAttach(&vxSnap{Ctl: mc.Clone(base, fz.pmap, base.pwmValuesWithDistinctTarget), Files: files})
+				o2 := fz.vxCycle(vxSym{Curve: v2, Rpm: 1000})
+				if o2.Req < o1.Req || o2.DevPwm < o1.DevPwm {
+					return fmt.Sprintf("history curve %d, then %d -> request %d written %d; curve RISES to %d -> request %d written %d", v0, v1, o1.Req, o1.DevPwm, v2, o2.Req, o2.DevPwm), reqs, devs
+				}
+			}
+		}
+	}
 	return "", reqs, devs
 }
 
@@ -180,7 +219,7 @@ func TestVX_C07b(t *testing.T) {
 		step = 5
 	}
 	var cfgs []vxCfg
-	for _, mp := range []string{"identity", "readme", "quant5", "plateau", "three"} {
+	for _, mp := range []string{"identity", "readme", "quant5", "plateau", "three", "compress"} {
 		for _, ns := range []bool{false, true} {
 			for mn := 0; mn <= 255; mn += step {
 				for mx := mn; mx <= 255; mx += step {
@@ -210,5 +249,5 @@ func TestVX_C07b(t *testing.T) {
 			rep.Sample(map[string]any{"config": cfg.String(), "request@0,64,128,192,255": []int{reqs[0], reqs[64], reqs[128], reqs[192], reqs[255]}, "written@0,64,128,192,255": []int{devs[0], devs[64], devs[128], devs[192], devs[255]}})
 		}
 	}
-	rep.Note("per configuration: ascending sweep of all 256 curve values on one controller + each value on a fresh controller; distinct_nontrivial = configurations whose request range is non-degenerate")
+	rep.Note("per configuration: ascending sweep of all 256 curve values on one controller + each value on a fresh controller + every rise v1<=v2 (grid) after histories (v0 in {0,128,255}, v1); distinct_nontrivial = configurations whose request range is non-degenerate")
 }
